@@ -93,6 +93,48 @@ def conf_compare(trace_files):
     return out
 
 
+def hist_projection(recs):
+    """Result codes with their newline style, and command-machine handler invocations, in order."""
+    toks = []
+    out = output_bytes(recs)
+    for raw in out.split(b"\n"):
+        crlf = raw.endswith(b"\r")
+        body = raw.rstrip(b"\r").lstrip(b"\r")
+        if body in (b"OK", b"ERROR"):
+            toks.append(("code", body.decode(), crlf))
+    calls = []
+    for r in recs:
+        if r["e"] == "api":
+            for e in r["ev"]:
+                if e["k"] == "cmd" and e["fsm"] == "cmd":
+                    calls.append((e["kind"], e["c"]))
+    return toks, calls
+
+
+def hist_compare(trace_files):
+    groups = {}
+    for tf in trace_files:
+        for recs in split_scenarios(read_trace(tf)):
+            tag = [r["t"] for r in recs if r["e"] == "env" and r.get("f") == "note" and str(r.get("t", "")).startswith("hist_")]
+            if not tag:
+                continue
+            _, key, variant = tag[0].split("_")
+            groups.setdefault(key, {})[int(variant)] = (recs[0]["sid"], tf, hist_projection(recs))
+    out = []
+    for key, vs in groups.items():
+        if 0 not in vs or len(vs) < 2 or sorted(vs) != list(range(len(vs))):
+            continue
+        sid, tf, seq = vs[0]
+        toks, calls = [], []
+        for i in range(1, len(vs)):
+            toks += vs[i][2][0]
+            calls += vs[i][2][1]
+        if (toks, calls) != seq:
+            out.append({"p": "C20", "why": ["the answer to a sequence of lines differs from the answers to its lines fed alone", [str(seq)[:300], str((toks, calls))[:300]]],
+                        "sid": sid, "at": 0, "trace": tf, "hist_key": key, "members": [(vs[i][0], vs[i][1]) for i in range(1, len(vs))]})
+    return out
+
+
 def has_tag(bad, pid):
     return pid in str(bad.get("p", "")).split(",")
 
@@ -119,7 +161,8 @@ def confirm(exes, scn_text, pid, workdir):
     n = 0
     for _ in range(2):
         res = run_scenario_file(exes, p, workdir)
-        if any(has_tag(b, pid) for b in res["mon"]["bad"]) or (pid == "C12" and conf_compare([os.path.join(workdir, "replay.ndjson")])):
+        if any(has_tag(b, pid) for b in res["mon"]["bad"]) or (pid == "C12" and conf_compare([os.path.join(workdir, "replay.ndjson")])) \
+                or (pid == "C20" and hist_compare([os.path.join(workdir, "replay.ndjson")])):
             n += 1
     return n == 2
 
@@ -184,6 +227,10 @@ def check_property(pid, tier, seed):
                 if (cb["ref_scn"], cb["ref_sid"]) in bad_sids:
                     continue               # the eager twin itself misbehaves: not a statement about schedules
                 bads.append(cb)
+        if pid == "C20":
+            for hb in hist_compare([j["trace"] for j in batches]):
+                hb["scn"] = hb["trace"].replace(".ndjson", ".scn")
+                bads.append(hb)
         mine = [b for b in bads if has_tag(b, pid)]
         others = [b for b in bads if not has_tag(b, pid)]
         # ---- verdict
@@ -198,6 +245,9 @@ def check_property(pid, tier, seed):
             text = extract_scenario(b["scn"], b["sid"])
             if "ref_sid" in b:
                 text = extract_scenario(b["ref_scn"], b["ref_sid"]) + text
+            if "members" in b:
+                for msid, mtf in b["members"]:
+                    text += extract_scenario(mtf.replace(".ndjson", ".scn"), msid)
             fp = fingerprint(b)
             hit = [k for k in known if k["p"] == pid and k["fp"] == fp]
             if hit:
@@ -275,6 +325,8 @@ def replay(pid, path):
         mine = [b for b in res["mon"]["bad"] if has_tag(b, pid)]
         if pid == "C12":
             mine += conf_compare([os.path.join(work, "replay.ndjson")])
+        if pid == "C20":
+            mine += hist_compare([os.path.join(work, "replay.ndjson")])
         print(json.dumps({"bad": res["mon"]["bad"], "drift": res["impl"]["drift"][:2]}, indent=1)[:4000])
         if mine:
             print("VIOLATION property=%s replay=%s" % (pid, path))
